@@ -446,6 +446,47 @@ def run(prog, ctx):
     n_z += C.coupled_store_rule(res, prog, "C07.Z", "frequencies::reverse_purge_item_hash_map::ReversePurgeItemHashMap", "keys", "lg_length")
     n_z += C.coupled_store_rule(res, prog, "C07.Z", "frequencies::reverse_purge_item_hash_map::ReversePurgeItemHashMap", "states", "lg_length")
     res.rule("C07.Z", n_z, 0, "table / size field pairs")
+    # ---------------- C07.R the per-slot state of the map is the probe distance + 1 (0 = free): whatever is stored there stays within
+    # 0..=table length.  Every store into the state array whose value can be evaluated is evaluated on a 16-slot table for every
+    # (probe position, home slot) pair; a distance computed without wrapping around the end of the array shows up as a huge state.
+    import itertools as _it
+    n_r = 0
+    for f in sorted((x for x in prog.fns.values() if not x.promoted and x.owner == M), key=lambda x: x.id):
+        for (b, buf, idx, val, span, sx) in C.buffer_stores(prog, f, "states"):
+            lv = formula.top_leaves(val)
+            if not lv:
+                continue
+            doms = {}
+            ok_shape = True
+            for k, node in lv.items():
+                if node[0] == "var":
+                    doms[k] = list(range(16))
+                elif "size" in k or k.startswith("len(") or "length" in k:
+                    doms[k] = [16]
+                elif node[0] in ("call", "field") and ("finish" in k or "hash" in k):
+                    doms[k] = [0, 5, 15, (1 << 40) + 3, (1 << 64) - 1]
+                else:
+                    ok_shape = False
+            if not ok_shape or len(doms) > 3 or not any(len(d) > 1 for d in doms.values()):
+                continue
+            n_r += 1
+            verdict, wit = None, ""
+            keys_ = sorted(doms)
+            for combo in _it.product(*[doms[k] for k in keys_]):
+                env = {"@prog": prog}
+                env.update(dict(zip(keys_, combo)))
+                try:
+                    v = formula.evaluate(val, env)
+                except (formula.Uneval, TypeError, IndexError, ZeroDivisionError):
+                    continue
+                if not isinstance(v, int):
+                    continue
+                if verdict is None:
+                    verdict = True
+                if not (0 <= v <= 16) and verdict is not False:
+                    verdict, wit = False, "with %s a state of %d is stored in a 16-slot table" % (dict(zip(keys_, combo)), v)
+            res.tri(verdict, "C07.R", "C07.R|%s" % f.id, "%s stores a probe distance that is not taken modulo the table size: %s" % (f.id, wit), f.id, span)
+    res.rule("C07.R", n_r, 0, "evaluable stores into the slot-state array")
     res.explanation = ("structural and formula rules over the %d functions reachable from FrequentItemsSketch::{new,update_with_count,merge}: merge "
                        "conservation with its guard, bound accessor formulas, purge flow, resize-or-purge after every insertion, sizing formulas "
                        "evaluated for lg 0..=31" % len(reach))
